@@ -331,7 +331,7 @@ def body(ctx):
 
 
 def run(ctx):
-    hyp_run(ctx, 'c06.scenario', CASE, body(ctx), ctx.pick(14, 60))
+    hyp_run(ctx, 'c06.scenario', CASE, body(ctx), ctx.pick(14, 300))
 
 
 def replay(ctx, check, case):
